@@ -45,7 +45,8 @@ def gen_history(rnd, pool, maxlen):
                 # an imported file is missing for one compilation (it fails), then it is there again: the next compilation on the
                 # same compiler object has to give what a fresh process gives
                 st["compiler"] = st["compiler"] if st["compiler"] is not None else 0
-                steps.append({"job": j, "churn": rnd.randrange(1 << 30), "compiler": st["compiler"], "hide": rnd.choice(pool[j]["libs"])})
+                steps.append({"job": j, "churn": rnd.randrange(1 << 30), "compiler": st["compiler"] if rnd.random() < 0.5 else None,
+                              "hide": rnd.choice(pool[j]["libs"]), "overwrite": rnd.random() < 0.5})
             if pool[j].get("provider") is not None and rnd.random() < 0.7:
                 # first the program that defines the macros, then, on the same compiler object, the one that only calls them
                 st["compiler"] = st["compiler"] if st["compiler"] is not None else 0
@@ -102,13 +103,17 @@ class Runner:
                 hidden = st["hide"] + ".hidden"
                 try:
                     os.rename(st["hide"], hidden)
+                    if st.get("overwrite"):
+                        # ... or it has other content for one compilation (somebody edits it and changes it back)
+                        with open(st["hide"], "w", encoding="utf-8") as f:
+                            f.write("macro something_else() {\n    edited();\n}\n")
                 except OSError:
                     hidden = None
                 try:
                     hist.compute(job, compiler=comp, objs=objs)
                 finally:
                     if hidden:
-                        os.rename(hidden, st["hide"])
+                        os.replace(hidden, st["hide"])
                 acc.count("calls_with_an_imported_file_missing")
                 continue
             hist.KCACHE.plant = bool(st.get("plant"))
